@@ -15,7 +15,9 @@ KEYSETS = [
     (bytes(range(1, 65)), bytes(range(1, 64)) + b'\xff'),
     (b'RandomX example key\x00', b'RandomX example key'),
     (b'z' * 200, b'z' * 201),
-    (b'rcp key 1186', b'rcp key 2708'),         # 193 and 281 IMUL_RCP in the eight programs: re-keying K1 -> K2 makes the cache's reciprocal table grow beyond its capacity
+    (b'rcp key 1186', b'rcp key 2708'),
+    # (the pair above: 193 and 281 IMUL_RCP in the eight programs: re-keying K1 -> K2 makes the cache's reciprocal table grow beyond its capacity)
+    (b'ab\x00cd', b'ab'),                        # K2 = the part of K1 before its embedded NUL (a C-string copy of K1 equals K2)
 ]
 INPUTSETS = [
     (b'This is a test', b'Lorem ipsum dolor sit amet'),
